@@ -22,9 +22,9 @@ def pON (s : String) : Option (Option Nat) :=
   if s == "-" then some none else s.toNat?.map some
 
 def pP : Pr P
-  | c :: d :: f :: m :: lo :: hi :: r => match pOB c, pOS d, pOS f, pOB m, pON lo, pON hi with
-    | some c, some d, some f, some m, some lo, some hi => some ({ config := c, desc := d, dflt := f, mandatory := m, minEl := lo, maxEl := hi }, r)
-    | _, _, _, _, _, _ => none
+  | c :: d :: f :: m :: lo :: hi :: pr :: r => match pOB c, pOS d, pOS f, pOB m, pON lo, pON hi, pOS pr with
+    | some c, some d, some f, some m, some lo, some hi, some pr => some ({ config := c, desc := d, dflt := f, mandatory := m, minEl := lo, maxEl := hi, presence := pr }, r)
+    | _, _, _, _, _, _, _ => none
   | _ => none
 
 def pNames : Nat → Pr (List String)
@@ -100,7 +100,7 @@ def showOS : Option String → String
   | none => "-" | some s => "h" ++ hexStr s
 def showON : Option Nat → String
   | none => "-" | some n => toString n
-def showP (p : P) : List String := [showOB p.config, showOS p.desc, showOS p.dflt, showOB p.mandatory, showON p.minEl, showON p.maxEl]
+def showP (p : P) : List String := [showOB p.config, showOS p.desc, showOS p.dflt, showOB p.mandatory, showON p.minEl, showON p.maxEl, showOS p.presence]
 
 mutual
   def showT : T → List String
